@@ -357,4 +357,111 @@ LimitZeroNeverFails == opts.limit = 0 => cls # "CopyLimit"
 \* C01: a passing test, and a skipped remove, leave the document as it is
 NoOpSteps == [][(lab' \in {"TestPass", "TestPassAbsent"} \/ Len(skipped') > Len(skipped)) => doc' = doc]_pvars
 
+
+(***************************************************************************)
+(* C13 at design level: the run with AllowMissingPathOnRemove equals the   *)
+(* run WITHOUT the option of the same patch minus the skipped removes.     *)
+(***************************************************************************)
+RECURSIVE RunAll(_, _, _, _, _)
+RunAll(d, os, o, cp, i) ==        \* returns [k, v, cls]: final document or first failure
+  IF i > Len(os) THEN [k |-> "ok", v |-> d, cls |-> ""]
+  ELSE LET a == ApplyOp(d, os[i], o, cp, NoSz) IN
+       IF a.r.k = "ok" THEN RunAll(a.r.v, os, o, a.copied, i + 1)
+       ELSE [k |-> a.r.k, v |-> Null, cls |-> a.r.cls]
+
+WithoutSkipped(os, sk) == SelectSeq([i \in 1..Len(os) |-> [i |-> i, op |-> os[i]]],
+                                    LAMBDA x : \A j \in 1..Len(sk) : sk[j] # x.i)
+OpsOnly(xs) == [i \in 1..Len(xs) |-> xs[i].op]
+
+SkipEquivalent ==
+  (opts.allow /\ status # "dc") =>
+     LET off == RunAll(seed, OpsOnly(WithoutSkipped(ops, skipped)), [opts EXCEPT !.allow = FALSE],
+                       [lo |-> 0, hi |-> 0], 1)
+     IN  \/ off.k = "dc"                                   \* outside the stated domain on the other side
+         \/ /\ (status = "run") = (off.k = "ok")
+            /\ status = "run" => off.v = doc
+            /\ status = "err" => off.k = "err"
+
+\* C13: the option forgives nothing but removes
+OnlyRemoveForgiven ==
+  [][Len(skipped') > Len(skipped) => ops'[Len(ops')].op = "remove"]_pvars
+
+(***************************************************************************)
+(* C14 at design level.                                                    *)
+(***************************************************************************)
+LastOp == ops[Len(ops)]
+
+\* the token path at which the value of a successful add ends up ("-" and negative
+\* indices resolved against the parent as it is afterwards)
+ResolvedAddPath(d2, toks, neg) ==
+  LET par  == Lookup(d2, SubSeq(toks, 1, Len(toks) - 1), neg)
+      last == toks[Len(toks)]
+  IN  IF par.k # "ok" THEN [k |-> "bad", p |-> <<>>]
+      ELSE IF par.v.t = "arr" /\ ParseIndex(last).k = "dash"
+           THEN [k |-> "ok", p |-> SubSeq(toks, 1, Len(toks) - 1) \o <<NatCps(Len(par.v.e) - 1)>>]
+           ELSE [k |-> "ok", p |-> toks]
+
+EnsureLookup ==
+  (Len(ops) > 0 /\ status = "run" /\ opts.ensure /\ LastOp.op = "add" /\ LastOp.path # <<>>) =>
+     LET toks == ParsePointer(LastOp.path)
+         rp   == ResolvedAddPath(doc, toks, opts.neg)
+     IN  /\ rp.k = "ok"
+         /\ LET l == Lookup(doc, rp.p, opts.neg) IN l.k = "ok" /\ l.v = LastOp.value
+
+\* an add that succeeds without the option gives the same result with it
+EnsureAgrees ==
+  [][ (opts.ensure /\ ops'[Len(ops')].op = "add") =>
+        LET plain == ApplyOp(doc, ops'[Len(ops')], [opts EXCEPT !.ensure = FALSE], copied, NoSz).r
+        IN  plain.k = "ok" => (status' = "run" /\ doc' = plain.v) ]_pvars
+
+\* when parents were created: every location that existed before and is not on the path keeps
+\* its value, and everything new is the path, the added value or null padding next to the path
+EnsureFrame ==
+  [][ (lab' = "AddEnsure") =>
+        LET toks == ParsePointer(ops'[Len(ops')].path)
+            rp   == ResolvedAddPath(doc', toks, opts.neg)
+            T    == rp.p
+        IN  /\ rp.k = "ok"
+            /\ \A p \in Paths(doc) : ~IsPrefixOf(p, T) => (p \in Paths(doc') /\ At(doc', p) = At(doc, p))
+            /\ \A q \in Paths(doc') \ Paths(doc) :
+                  \/ IsPrefixOf(q, T)
+                  \/ IsPrefixOf(T, q)
+                  \/ (At(doc', q) = Null /\ Len(q) >= 1 /\ IsPrefixOf(SubSeq(q, 1, Len(q) - 1), T)) ]_pvars
+
+(***************************************************************************)
+(* C05 at design level: what an operation does to the member order of the  *)
+(* objects that survive it (objects reached through object members only,   *)
+(* so that the same path names the same object before and after).          *)
+(***************************************************************************)
+ObjOnly(d, p) == \A i \in 0..(Len(p) - 1) : At(d, SubSeq(p, 1, i)).t = "obj"
+InSeq(x, s) == \E i \in 1..Len(s) : s[i] = x
+
+OrderPreservedStep(op, d1, d2) ==
+  LET dst == IF op.op \in {"add", "replace", "copy", "move"} THEN ParsePointer(op.path) ELSE <<>>
+      wholesale(p) == op.op \in {"add", "replace", "copy", "move"} /\ IsPrefixOf(dst, p)
+      \* a moved member is created anew at its destination
+      movedKey(p) == IF op.op = "move" /\ LET f == ParsePointer(op.from) IN Len(f) >= 1 /\ SubSeq(f, 1, Len(f) - 1) = p
+                     THEN <<ParsePointer(op.from)[Len(ParsePointer(op.from))]>> ELSE <<>>
+  IN
+  \A p \in Paths(d1) \cap Paths(d2) :
+     (At(d1, p).t = "obj" /\ At(d2, p).t = "obj" /\ ObjOnly(d1, p) /\ ObjOnly(d2, p) /\ ~wholesale(p)) =>
+        LET old == SelectSeq(Keys(At(d1, p)), LAMBDA k : ~InSeq(k, movedKey(p)))
+            new == Keys(At(d2, p))
+        IN  /\ SelectSeq(old, LAMBDA k : InSeq(k, new)) = SelectSeq(new, LAMBDA k : InSeq(k, old))
+            /\ \A i, j \in 1..Len(new) : (InSeq(new[i], old) /\ ~InSeq(new[j], old)) => i < j
+
+OrderPreserved == [][status' = "run" => OrderPreservedStep(ops'[Len(ops')], doc, doc')]_pvars
+
+\* number literals and strings that no operation addresses are carried over: every scalar leaf
+\* of the new document is a leaf of the old one or of a value the operation supplied
+RECURSIVE Leaves(_)
+Leaves(v) ==
+  CASE v.t = "obj" -> UNION { Leaves(v.m[i].v) : i \in 1..Len(v.m) }
+    [] v.t = "arr" -> UNION { Leaves(v.e[i]) : i \in 1..Len(v.e) }
+    [] OTHER -> {v}
+LiteralsCarried ==
+  [][status' = "run" =>
+       LET op == ops'[Len(ops')]
+           sup == IF op.op \in {"add", "replace"} THEN Leaves(op.value) ELSE {}
+       IN  Leaves(doc') \subseteq (Leaves(doc) \cup sup \cup {Null})]_pvars
 =============================================================================
